@@ -155,9 +155,9 @@ Proof. exact iter_ops_view. Qed.
 (* the two predicates the correspondence check evaluates on the implementation's own output
    when it disagrees with the model: what they mean, and that the model satisfies them *)
 Theorem C04_placement_sound : forall spec observed,
-  placement_ok spec observed = true ->
+  placement_ok spec observed = true <->
   NoDup observed /\ NoDup spec /\ (forall x, In x observed <-> In x spec).
-Proof. exact (fun spec observed => proj1 (same_set_spec observed spec)). Qed.
+Proof. exact (fun spec observed => same_set_spec observed spec). Qed.
 
 Theorem C04_placement_model : forall dcf rackf (g : ring N) pre t s dc,
   sorted_weak g ->
@@ -207,7 +207,7 @@ Proof. exact ordered_hint_bounds. Qed.
    interleaved next/nth, get_token_endpoints all describe the iterated duplicate-free list) and
    [precomputed_ok]: what they mean, and that the model satisfies them *)
 Theorem C04_views_ok_sound : forall len iter nth choose cf cfpred opsl ep,
-  views_ok len iter nth choose cf cfpred opsl ep = true ->
+  views_ok len iter nth choose cf cfpred opsl ep = true <->
   len = List.length iter /\ NoDup iter /\
   (forall k, (k < List.length nth)%nat -> nth_error nth k = Some (nth_error iter k)) /\
   List.length choose = len /\ (forall o, In o choose -> exists x, o = Some x /\ In x iter) /\
@@ -220,10 +220,12 @@ Theorem C04_views_ok_sound : forall len iter nth choose cf cfpred opsl ep,
   | Some l => NoDup l /\ (forall x, In x l <-> In x iter)
   | None => True
   end.
-Proof. exact views_ok_sound. Qed.
+Proof. exact views_ok_spec. Qed.
 
+(* a restatement: precomputed_ok np iter is placement_ok iter np (C04_placement_sound with the
+   arguments swapped); kept so that each extracted predicate has a theorem under its own name *)
 Theorem C04_precomputed_ok_sound : forall np iter,
-  precomputed_ok np iter = true -> NoDup np /\ NoDup iter /\ (forall x, In x np <-> In x iter).
+  precomputed_ok np iter = true <-> NoDup np /\ NoDup iter /\ (forall x, In x np <-> In x iter).
 Proof. exact precomputed_ok_sound. Qed.
 
 Theorem C04_views_ok_model : forall dcf rackf (g : ring N) pre t s dc n cf cfpred opss,
@@ -378,7 +380,24 @@ Example C04_ex_views_ok :
   views_ok 3 [6; 1; 3]%N [] [Some 6; Some 1; Some 3]%N None odd [] None = false /\                                      (* choose_filtered: None although 1, 3 qualify *)
   views_ok 3 [6; 1; 3]%N [] [Some 6; Some 1; Some 3]%N (Some 1%N) odd [(ops, [Some 6; Some 1]%N)] None = false /\        (* interleaving *)
   views_ok 3 [6; 1; 3]%N [] [Some 6; Some 1; Some 3]%N (Some 1%N) odd [] (Some [6; 1]%N) = false /\                     (* endpoints *)
+  views_ok 3 [6; 1; 6]%N [] [Some 6; Some 1; Some 6]%N (Some 1%N) odd [] None = false /\                                (* a replica named twice *)
+  views_ok 3 [6; 1; 3]%N [] [Some 6; Some 1]%N (Some 1%N) odd [] None = false /\                                        (* number of choose results *)
   precomputed_ok [1; 6]%N [6; 1]%N = true /\ precomputed_ok [2; 3]%N [1; 2]%N = false.
+Proof. repeat split; vm_compute; reflexivity. Qed.
+
+(* C04_views_ok_model / C04_precomputed_ok_model instantiated: the model's own views pass, and the
+   premise about choose_filtered matters (cf = None although odd replicas exist is refused) *)
+Example C04_ex_views_model :
+  let pre := [Simple 2; NTS [(1%N, 3%nat); (2%N, 3%nat)]] in
+  let s := NTS [(1%N, 3%nat); (2%N, 3%nat)] in
+  let r := replicas_for ex_dcf ex_rackf ex_g pre 160 s None in
+  let iter := rs_iter ex_dcf ex_rackf ex_g pre 160 r in
+  let opss := [[INext; INth 1; INext; INth 0; INth 2; INext]; [INth 0; INth 0; INext; INth 3; INext]] in
+  let v := fun cf => views_ok (rs_len ex_dcf ex_g r) iter (map (rs_nth ex_dcf ex_rackf ex_g pre 160 r) (seq 0 8))
+             (map (rs_choose ex_dcf ex_rackf ex_g pre 160 r) (seq 0 (rs_len ex_dcf ex_g r))) cf N.odd
+             (map (fun ops => (ops, rs_run ex_dcf ex_rackf ex_g pre 160 r ops)) opss) (Some iter) in
+  List.length iter = 6%nat /\ v (Some 7%N) = true /\ v None = false /\
+  precomputed_ok (rs_iter ex_dcf ex_rackf ex_g [] 160 (replicas_for ex_dcf ex_rackf ex_g [] 160 s None)) iter = true.
 Proof. repeat split; vm_compute; reflexivity. Qed.
 
 Example C04_ex_ops :
